@@ -9,23 +9,23 @@ HERE = os.path.dirname(os.path.abspath(__file__))
 # id -> (level category, level text, level note, technique, design ref)
 CLAIMS = {
  "C08": ("other",
-   "Exhaustive static obligation per site: every unsafe.Pointer reinterpretation in the package (48 on the pinned tree, found on the SSA form by type, not by text) must be narrowing (sizeof view <= sizeof source) and a field-by-field layout prefix (offset, type, jsonld term, name; Items/OrderedItems is the one allowed renaming) on all 14 gc architectures; an interface-typed field must have the IDENTICAL type in source and view (a value stored through a field of one named interface type and read through a field of another keeps the other type's method table, so type assertions and == on it deny its dynamic type); any other use of package unsafe fails. This is the property's own static formulation ('a static obligation per site'), so the check decides the property for all sites and layouts. Claimed at level 'other' (not 'proof') because the two known widening findings at ToOrderedCollectionPage leave 2 of 88 obligations undischarged on the current tree.",
+   "Exhaustive static obligation per site: every unsafe.Pointer reinterpretation in the package (48 on the pinned tree, found on the SSA form by type, not by text) must be narrowing (sizeof view <= sizeof source) and a field-by-field layout prefix (offset, type, jsonld term, name; Items/OrderedItems is the one allowed renaming) on all 14 gc architectures; an interface-typed field must have the IDENTICAL type in source and view (a value stored through a field of one named interface type and read through a field of another keeps the other type's method table, so type assertions and == on it deny its dynamic type); any other use of package unsafe fails. This is the property's own static formulation ('a static obligation per site'), so the check decides the property for all sites and layouts. Claimed at level 'other' (not 'proof') because the two known widening findings at ToOrderedCollectionPage leave 2 of 88 obligations undischarged on the current tree. ADDED: (reflect) the reflection fallback converts and returns the pointer it was given, never the address of a converted copy.",
    "Trusted: go/types layout model types.SizesFor(gc, arch) agreeing with the compiler; go/ssa builder; the reflect.ConvertibleTo fallback converts only between identical underlying struct types (not re-verified).",
    "layout-prefix check over all unsafe.Pointer conversion sites (go/ssa + go/types.Sizes)", "3/C08"),
  "C15": ("other",
-   "Decides the table-agreement clauses: the eight collection names of the statement are CollectionPath constants; the table Split consults and the union of the two validity tables contain all eight; Split/ValidCollectionIRI route through those tables (who-reads / who-calls on the SSA call graph); by abstract interpretation with the path fixed to each name, ofActor/ofObject/AddTo touch exactly the struct field whose jsonld term equals the name. A necessary condition of the join/split and owner laws for each name; the inverse law on arbitrary owner IRI strings is NOT decided.",
+   "Decides the table-agreement clauses: the eight collection names of the statement are CollectionPath constants; the table Split consults and the union of the two validity tables contain all eight; Split/ValidCollectionIRI route through those tables (who-reads / who-calls on the SSA call graph); by abstract interpretation with the path fixed to each name, ofActor/ofObject/AddTo touch exactly the struct field whose jsonld term equals the name. A necessary condition of the join/split and owner laws for each name; the inverse law on arbitrary owner IRI strings is NOT decided. ADDED: (of) the lookup CollectionPath.Of performs last on an actor is ofActor for the actor collections and ofObject only for names ofObject knows; (build) the fallback always builds owner + name.",
    "Trusted: go/types constant evaluation, go/ssa, the abstract interpreter. Declined: string-level inverse law (trailing slashes, percent-escapes, path/filepath host dependence); survival of an explicitly set actor collection through Of().",
    "constant-table agreement + abstract interpretation (SCCP) of the name->field switches", "3/C15"),
  "C01": ("other",
-   "Decides that the three hand-written per-field tables agree for every (type, field) of the 14 vocabulary structs and the 3 tagged sub-structs: struct tag (declared term) vs JSON writer (prop-writer call sites whose value derives from the field, by SSA provenance) vs JSON reader (stores into the field fed by fastjson key lookups, via getter summaries): written at all, under its term, not under a sign-sensitive/inverted emptiness guard, read from its term and nothing else, every emitted key consumed, loaders read the same document, scalar helpers inverse by construction (bool unquoted, float shortest-round-trip, duration xsd both ways); a property is not written under a guard that looks at only some of its own sub-fields; and (W-lost, by the path-sensitive grammar interpreter of C02) no encoder returns nothing on a path on which it has already written a property. ~3070 obligations, exhaustive over tagged fields. This is a necessary condition of the round-trip property per field (breaking a table entry drops/renames/moves the property for every value); value equality after a real round trip is NOT decided.",
+   "Decides that the three hand-written per-field tables agree for every (type, field) of the 14 vocabulary structs and the 3 tagged sub-structs: struct tag (declared term) vs JSON writer (prop-writer call sites whose value derives from the field, by SSA provenance) vs JSON reader (stores into the field fed by fastjson key lookups, via getter summaries): written at all, under its term, not under a sign-sensitive/inverted emptiness guard, read from its term and nothing else, every emitted key consumed, loaders read the same document, scalar helpers inverse by construction (bool unquoted, float shortest-round-trip, duration xsd both ways); a property is not written under a guard that looks at only some of its own sub-fields; and (W-lost, by the path-sensitive grammar interpreter of C02) no encoder returns nothing on a path on which it has already written a property. ~3070 obligations, exhaustive over tagged fields. This is a necessary condition of the round-trip property per field (breaking a table entry drops/renames/moves the property for every value); value equality after a real round trip is NOT decided. ADDED: the emptiness predicate behind the encoders must test every field plainly for being set; the bit size handed to strconv float formatting/parsing equals the width of the Go type.",
    "Trusted: go/types, go/ssa, apcheck prov.go/tables.go, fastjson accessors look up exactly the keys given. Declined: time-zone normalisation, list compaction, nested composition, text escaping (C06).",
    "cross-table agreement by SSA provenance slicing (tag vs writer vs reader), exhaustive over struct fields", "3/C01"),
  "C03": ("other",
-   "Decides that the gob writer and reader tables agree for every (type, field): constant-key updates of the property map whose value derives from the field vs stores into the field fed by comma-ok lookups of constant keys; same key both ways (case-sensitive), no shared key, no sign-sensitive/inverted guard, matching encode/decode helper pair, Marshal/UnmarshalBinary delegate to the gob pair. ~2500 obligations, exhaustive over tagged fields. Necessary condition per field of the gob round trip; value equality and encoding/gob internals are NOT decided. Type-name dispatch is C07.",
+   "Decides that the gob writer and reader tables agree for every (type, field): constant-key updates of the property map whose value derives from the field vs stores into the field fed by comma-ok lookups of constant keys; same key both ways (case-sensitive), no shared key, no sign-sensitive/inverted guard, matching encode/decode helper pair, Marshal/UnmarshalBinary delegate to the gob pair. ~2500 obligations, exhaustive over tagged fields. Necessary condition per field of the gob round trip; value equality and encoding/gob internals are NOT decided. Type-name dispatch is C07. ADDED: (flag) the encoders' 'has data' flag is true (or the delegated helper's own flag) on every path from every update of the property map to every later read of the flag, through phis and through captured named results — otherwise a value whose only set property is that one encodes to nothing; a property is not written under a guard that looks at only some of its own sub-fields.",
    "Trusted: go/types, go/ssa, apcheck prov.go/tables.go; encoding/gob transmits a basic kind to a pointer of the same kind.",
    "cross-table agreement by SSA provenance slicing (gob map writer vs reader), exhaustive over struct fields", "3/C03"),
  "C05": ("other",
-   "Decides read-side completeness: every tagged field is read from its own term, collapsible text fields also from term+'Map', nothing foreign; item getters that switch on the JSON kind handle string/object/array; no getter re-looks a key up inside the value found under that key; every item position funnels into the one dispatcher JSONLoadItem (whose table C07 proves). Necessary conditions of 'decoding reads what the document says'; the re-encoding fixpoint and generated-document equality are NOT decided.",
+   "Decides read-side completeness: every tagged field is read from its own term, collapsible text fields also from term+'Map', nothing foreign; item getters that switch on the JSON kind handle string/object/array; no getter re-looks a key up inside the value found under that key; every item position funnels into the one dispatcher JSONLoadItem (whose table C07 proves). Necessary conditions of 'decoding reads what the document says'; the re-encoding fixpoint and generated-document equality are NOT decided. ADDED: (invent) every store of a loader into a tagged field is fed from the document, never from another property of the value being built.",
    "Trusted: go/types, go/ssa, getter summaries in tables.go, fastjson accessor semantics.",
    "reader-table completeness against struct tags + getter shape/double-lookup/funnel rules on SSA", "3/C05"),
  "C07": ("proof",
@@ -41,7 +41,7 @@ CLAIMS = {
    "Trusted: go/types method sets, go/ssa, prov.go.",
    "sibling agreement of call-argument schemas extracted from SSA + CFG ordering of the Block removal", "3/C10"),
  "C11": ("other",
-   "Decides the recipient-stripping walk, which is the shape of the code: every object type's pointer implements Clean; Object.Clean stores a zero-length list into both Bto and BCC; the nine (+3 for Activity) walked properties are handed to CleanRecipients on every path; by abstract interpretation, Clean() of every other type reaches (*Object).Clean on its own value on every executable path, and CleanRecipients on a non-nil pointer (alone or as list member) of each type reaches that type's Clean; the only vocabulary-struct fields written in the Clean closures are Bto/BCC. Near-complete for the property; NOT decided: values embedded by value, aliasing of list backing arrays.",
+   "Decides the recipient-stripping walk, which is the shape of the code: every object type's pointer implements Clean; Object.Clean stores a zero-length list into both Bto and BCC; the nine (+3 for Activity) walked properties are handed to CleanRecipients on every path; by abstract interpretation, Clean() of every other type reaches (*Object).Clean on its own value on every executable path, and CleanRecipients on a non-nil pointer (alone or as list member) of each type reaches that type's Clean; the only vocabulary-struct fields written in the Clean closures are Bto/BCC. Near-complete for the property; NOT decided: values embedded by value, aliasing of list backing arrays. The walk of IntransitiveActivity and Question includes actor and target.",
    "Trusted: go/types, go/ssa, the abstract interpreter, prov.go.",
    "must-call / walk-list extraction on SSA + abstract interpretation of delegation + write-frame scan", "3/C11"),
  "C13": ("other",
@@ -65,7 +65,7 @@ CLAIMS = {
    "Trusted: go/ssa, prov.go, the abstract interpreter.",
    "abstract interpretation of refusal paths + field-assignment pairing and guard polarity + must-pass-through of the merge call before a success return (SSA)", "3/C18, 8.4"),
  "C09": ("other",
-   "Decides the structural clauses of item equality: every property of the object core other than media type and source (and actor/target/result/origin/instrument, object for activities) is compared between the two operands in the closure of the Equals methods; by abstract interpretation, forcing the id-equivalence test or the case-insensitive type test to fail makes Object.Equals constantly false and forcing Object.Equals false makes every other object type's Equals constantly false; ItemsEqual on two non-nil values of the same concrete type is never constantly false for any of the 14 types (a constantly-false dispatch breaks reflexivity for the whole type), nil-like operands are decided by C20; list equalities do not have the all-pairs loop shape. NOT decided: reflexivity/symmetry over all values (lists with id-less members), termination of the swap recursion. ADDED: (pair) every comparison inside an Equals method relates the same property of the two operands; (forms) each type predicate lists the value form of a struct iff it lists the pointer form; (member) list equality looks members up by themselves, not by their IRI; (dispatch) over all 34 dynamic item kinds incl. the list types; termination of the operand swap is C04.swap.",
+   "Decides the structural clauses of item equality: every property of the object core other than media type and source (and actor/target/result/origin/instrument, object for activities) is compared between the two operands in the closure of the Equals methods; by abstract interpretation, forcing the id-equivalence test or the case-insensitive type test to fail makes Object.Equals constantly false and forcing Object.Equals false makes every other object type's Equals constantly false; ItemsEqual on two non-nil values of the same concrete type is never constantly false for any of the 14 types (a constantly-false dispatch breaks reflexivity for the whole type), nil-like operands are decided by C20; list equalities do not have the all-pairs loop shape. NOT decided: reflexivity/symmetry over all values (lists with id-less members), termination of the swap recursion. ADDED: (pair) every comparison inside an Equals method relates the same property of the two operands; (forms) each type predicate lists the value form of a struct iff it lists the pointer form; (member) list equality looks members up by themselves, not by their IRI; (dispatch) over all 34 dynamic item kinds incl. the list types; termination of the operand swap is C04.swap. Also: (nilptr) a nil pointer of any pointer type that can sit in an Item is compared without a fault in both orders; (flat) an Equals method never hands its own two operands back to ItemsEqual; (member) ItemCollection.Contains refuses nothing but nil arguments.",
    "Trusted: go/ssa, prov.go, the abstract interpreter.",
    "field-comparison coverage and pairing on SSA + abstract interpretation with forced comparison results over all 34 dynamic item kinds + type-predicate form agreement + swap-guard antisymmetry (C04.swap)", "3/C09, 8.4"),
  "C19": ("other",
@@ -73,19 +73,19 @@ CLAIMS = {
    "Trusted: go/ssa, prov.go.",
    "guard-dominance and loop-shape rules on SSA", "3/C19"),
  "C12": ("other",
-   "Decides purity by write-effect summaries computed bottom-up over the whole package (stores, map updates, append, copy, calls mapped through actual arguments, interface calls resolved over the package's implementers, callbacks resolved where the actual is a closure): each of ~320 read-only operations (encoders, Equals/Contains, Format/String, getters/predicates, IsNil/NotEmpty/DerefItem, To*/On* helpers, ItemsEqual, ItemOrderTimestamp; found by name family and signature) may write only memory it allocated itself or its designated output parameter, never memory reachable from receiver/arguments and never a package-level variable; the ~75 decode entry points write no package-level variable. Race-freedom of concurrent read-only use follows from absence of writes to shared memory. Seven positive controls (known writers) must be recognised on every run. NOT decided: writes inside dependencies beyond the reviewed summary table, aliasing created through callee stores into locals.",
+   "Decides purity by write-effect summaries computed bottom-up over the whole package (stores, map updates, append, copy, calls mapped through actual arguments, interface calls resolved over the package's implementers, callbacks resolved where the actual is a closure): each of ~320 read-only operations (encoders, Equals/Contains, Format/String, getters/predicates, IsNil/NotEmpty/DerefItem, To*/On* helpers, ItemsEqual, ItemOrderTimestamp; found by name family and signature) may write only memory it allocated itself or its designated output parameter, never memory reachable from receiver/arguments and never a package-level variable; the ~75 decode entry points write no package-level variable. Race-freedom of concurrent read-only use follows from absence of writes to shared memory. Seven positive controls (known writers) must be recognised on every run. NOT decided: writes inside dependencies beyond the reviewed summary table, aliasing created through callee stores into locals. A dependency without a reviewed summary is assumed to write through every pointer-like argument and to return memory aliasing them.",
    "Trusted: go/ssa, effects.go, the reviewed dependency summaries (extTable/extPurePrefixes); unreviewed externals are listed in the evidence as assumptions.",
    "interprocedural write-effect (purity) analysis over SSA with root-based aliasing", "3/C12"),
  "C02": ("other",
-   "Decides the structural clauses: provenance of every byte string reaching an output buffer in the encoder closure (~200 sinks: constant / blessed escaper / nested MarshalJSON / numeric-instant-duration text with constant format; string fields, receivers' own bytes, %s-formatted strings and non-escaping helpers are findings where the raw bytes first enter; parameters resolved at call sites); the escaper's tables mark no control byte, quote or backslash safe and are consulted; member names are compile-time constant terms; no encoder emits one member name twice on one path; every field is written by the writer kind its Go type calls for, instants with the RFC 3339 layout; every encoder returns nil or an opened-and-closed buffer; (grammar) every one of the 25 MarshalJSON methods is interpreted path-sensitively over SSA with the buffer's state kept as the stack of a JSON parser over tokens: on every path and for every combination of set/unset properties each write keeps the buffer a prefix of a JSON text (separators, colons, quotes, brackets, roll-backs), every non-empty result is exactly one complete value, and a float is written only under !IsNaN && !IsInf; (escaper) the lazy-copy cursor discipline of stringBytes (cursor == scan position after every escape, untouched otherwise, flush before every escape and before the closing quote) and its escape table (short escapes decode to the byte they replace, \\u00XX nibble order, \\u202X only for U+2028/9). ~1280 obligations. NOT decided: the representation of invalid UTF-8 (replaced by U+FFFD), implementations of json.Marshaler outside the package (assumed to return nothing or one JSON value).",
+   "Decides the structural clauses: provenance of every byte string reaching an output buffer in the encoder closure (~200 sinks: constant / blessed escaper / nested MarshalJSON / numeric-instant-duration text with constant format; string fields, receivers' own bytes, %s-formatted strings and non-escaping helpers are findings where the raw bytes first enter; parameters resolved at call sites); the escaper's tables mark no control byte, quote or backslash safe and are consulted; member names are compile-time constant terms; no encoder emits one member name twice on one path; every field is written by the writer kind its Go type calls for, instants with the RFC 3339 layout; every encoder returns nil or an opened-and-closed buffer; (grammar) every one of the 25 MarshalJSON methods is interpreted path-sensitively over SSA with the buffer's state kept as the stack of a JSON parser over tokens: on every path and for every combination of set/unset properties each write keeps the buffer a prefix of a JSON text (separators, colons, quotes, brackets, roll-backs), every non-empty result is exactly one complete value, and a float is written only under !IsNaN && !IsInf; (escaper) the lazy-copy cursor discipline of stringBytes (cursor == scan position after every escape, untouched otherwise, flush before every escape and before the closing quote) and its escape table (short escapes decode to the byte they replace, \\u00XX nibble order, \\u202X only for U+2028/9). ~1280 obligations. NOT decided: the representation of invalid UTF-8 (replaced by U+FFFD), implementations of json.Marshaler outside the package (assumed to return nothing or one JSON value). ADDED: (term-kind) the interpreter tracks the length class {0,1,>=2} of named slices through len comparisons and length getters, and no member whose name ends in 'Map' (the language-map form) is ever written with a plain JSON string as its value; the converse (an object under the plain term) is NOT decided.",
    "Trusted: go/ssa, tables.go; encoding/json.Marshal and the copied escaper stringBytes escape per RFC 8259 given their tables; nested MarshalJSON outputs are valid inductively.",
    "byte-provenance (taint) analysis of output-buffer sinks + path-sensitive abstract interpretation of the encoders against a JSON-grammar typestate + constant-table, duplicate-name and escaper-loop rules", "3/C02, 8.4"),
  "C06": ("other",
-   "Decides structural necessary conditions for text to survive both codecs byte for byte: text already decoded by the JSON parser (fastjson GetStringBytes/StringBytes) is never handed to a JSON parser or a quote-stripping unmarshal method again, and never passes a byte-rewriting function (built on bytes/strings Replace*/Trim*/...) on its way into the stored value; the stored text reaches the escaper unrewritten; the gob forms put tag and text into the key and value slots and read them back from the same slots. Rewriters/re-parsers are discovered structurally. The escaper itself is decided structurally (cursor/flush discipline on every way round its loop, final flush, escape table: a dropped `start = i`, a missing flush or a wrong escape letter is a finding). NOT decided: equality for concrete strings as a relation on values.",
+   "Decides structural necessary conditions for text to survive both codecs byte for byte: text already decoded by the JSON parser (fastjson GetStringBytes/StringBytes) is never handed to a JSON parser or a quote-stripping unmarshal method again, and never passes a byte-rewriting function (built on bytes/strings Replace*/Trim*/...) on its way into the stored value; the stored text reaches the escaper unrewritten; the gob forms put tag and text into the key and value slots and read them back from the same slots. Rewriters/re-parsers are discovered structurally. The escaper itself is decided structurally (cursor/flush discipline on every way round its loop, final flush, escape table: a dropped `start = i`, a missing flush or a wrong escape letter is a finding). NOT decided: equality for concrete strings as a relation on values. ADDED: (count) the gob decoder of a language-value list appends one entry per stored entry; (flag) gob encoders that put natural-language text into the property map keep their 'has data' flag true on every path to its reads (see C03).",
    "Trusted: go/ssa; fastjson GetStringBytes returns the decoded string value.",
    "typestate / taint flow of decoded text on SSA (re-parse and rewrite sinks) + slot pairing + phi-edge/dominance rules for the escaper loop", "3/C06, 8.4"),
  "C04": ("other",
-   "Decides structural clauses of decoder totality over the decode closure D (~400 package functions reachable from the 73 Unmarshal*/GobDecode entry points found by signature): every index/slice expression in D is in bounds — the Go compiler's prove pass reports which bounds checks it could not eliminate and each such site inside D must be discharged by the checker's symbolic range rules on SSA, else it is a finding; D has no explicit panic, single-result type assertion or division by a non-constant; every loop in D is a range loop or a counted loop with constant step towards an invariant bound; every cycle of the call graph among input-carrying functions contains a descent to a strictly smaller sub-value (depth bounded by fastjson's nesting limit and the input length); every make in D is sized by a constant or an existing length; the operand-swapping self-call of ItemsEqual (on the decode path through Append/Contains) is guarded by a predicate proven antisymmetric over all pairs of the 34 dynamic item kinds (decision tree of the guard over pure atoms x feasibility from the abstract interpreter), so the two orders cannot call each other forever. NOT decided: panics inside dependencies, nil dereference of non-item pointers, quadratic de-duplication time, the follow-up-operations clause beyond C20/C12.",
+   "Decides structural clauses of decoder totality over the decode closure D (~400 package functions reachable from the 73 Unmarshal*/GobDecode entry points found by signature): every index/slice expression in D is in bounds — the Go compiler's prove pass reports which bounds checks it could not eliminate and each such site inside D must be discharged by the checker's symbolic range rules on SSA, else it is a finding; D has no explicit panic, single-result type assertion or division by a non-constant; every loop in D is a range loop or a counted loop with constant step towards an invariant bound; every cycle of the call graph among input-carrying functions contains a descent to a strictly smaller sub-value (depth bounded by fastjson's nesting limit and the input length); every make in D is sized by a constant or an existing length; the operand-swapping self-call of ItemsEqual (on the decode path through Append/Contains) is guarded by a predicate proven antisymmetric over all pairs of the 34 dynamic item kinds (decision tree of the guard over pure atoms x feasibility from the abstract interpreter), so the two orders cannot call each other forever. NOT decided: panics inside dependencies, nil dereference of non-item pointers, quadratic de-duplication time, the follow-up-operations clause beyond C20/C12. ADDED: (once) no loader hands the same document value to a descending loader more than once on any path (longest path over the CFG, closures and delegated loaders included) — otherwise decoding time doubles per nesting level; (nilfield) every dereference in D of a value loaded from a pointer-to-struct field is preceded on all paths by a store of a fresh value or a not-nil test of that field.",
    "Trusted: the Go compiler's prove pass for sites it reports proven; go/ssa; c04.go range rules; fastjson MaxDepth.",
    "compiler prove pass (BCE report) + symbolic range rules on SSA + loop-shape, recursion-descent, swap-guard antisymmetry and allocation-size rules", "3/C04, 8.4"),
 }
